@@ -123,8 +123,9 @@ func configs() []cfgSpec {
 	staged.HF = params.ForkMap{1: big.NewInt(2), 2: big.NewInt(3), 3: big.NewInt(4), 4: big.NewInt(5), 5: big.NewInt(7),
 		6: big.NewInt(8), 7: big.NewInt(9), 8: big.NewInt(11), 9: big.NewInt(12)}
 	staged.EIP155Block, staged.EIP158Block, staged.ByzantiumBlock = big.NewInt(9), big.NewInt(9), big.NewInt(9)
+	staged.HomesteadBlock = big.NewInt(3)
 	test := *params.TestChainConfig
-	return []cfgSpec{{"staged-hf1@2..hf9@12,eip155/158/byz@9", &staged}, {"TestChainConfig", &test}}
+	return []cfgSpec{{"staged-homestead@3,hf1@2..hf9@12,eip155/158/byz@9", &staged}, {"TestChainConfig", &test}}
 }
 
 var poorBalance = big.NewInt(10000000000000000)
@@ -139,6 +140,7 @@ func genesisSpec(cfg *params.ChainConfig) *core.Genesis {
 			alloc[a] = core.GenesisAccount{Balance: new(big.Int).Set(poorBalance)}
 		}
 	}
+	alloc[ctxAddr] = core.GenesisAccount{Code: ctxCode(), Balance: big.NewInt(0)}
 	for _, a := range probeAddrs {
 		alloc[a] = core.GenesisAccount{Code: probeCode, Balance: big.NewInt(0)}
 	}
@@ -162,10 +164,25 @@ type txgen struct {
 	r       *vh.RNG
 	cfg     *params.ChainConfig
 	created []common.Address // contracts created by earlier transactions
+	highS   int
+}
+
+// signHighS signs with the non-canonical (high) S value: s' = N - s, recovery id flipped
+func signHighS(tx *types.Transaction, key *btcec.PrivateKey) (*types.Transaction, error) {
+	h := types.FrontierSigner{}.Hash(tx)
+	sig, err := crypto.Sign(h[:], key)
+	if err != nil {
+		return nil, err
+	}
+	sv := new(big.Int).SetBytes(sig[32:64])
+	sv.Sub(btcec.S256().N, sv)
+	copy(sig[32:64], common.LeftPadBytes(sv.Bytes(), 32))
+	sig[64] ^= 1
+	return tx.WithSignature(types.FrontierSigner{}, sig)
 }
 
 var kindNames = []string{"transfer", "transfer-fresh", "touch-zero", "store", "selfdestruct", "revlog", "caller",
-	"create-store", "create-ctor", "create-fail", "low-gas-call", "precompile", "call-created"}
+	"create-store", "create-ctor", "create-fail", "low-gas-call", "precompile", "call-created", "ctx-probe", "ctx-probe"}
 
 func (g *txgen) storeData() []byte {
 	var d []byte
@@ -218,6 +235,14 @@ func (g *txgen) make(from int, nonce uint64, number *big.Int, protectedOK bool) 
 		tx = types.NewTransaction(nonce, storeAddr, big.NewInt(0), 21000+uint64(68*len(d))+uint64(r.Intn(9000)), price, d)
 	case "precompile":
 		tx = types.NewTransaction(nonce, common.BytesToAddress([]byte{byte(2 + r.Intn(3))}), big.NewInt(int64(r.Intn(2))), 60000, price, r.Bytes(1+r.Intn(40)))
+	case "ctx-probe":
+		// BLOCKHASH of 14 fixed depths (1..12, 256, 257, own and next number) and of a chosen depth,
+		// COINBASE, TIMESTAMP, NUMBER, DIFFICULTY, GASLIMIT — all stored
+		depth := uint64(r.Intn(14))
+		if r.Intn(6) == 0 {
+			depth = uint64(254 + r.Intn(5))
+		}
+		tx = types.NewTransaction(nonce, ctxAddr, big.NewInt(0), 900000, price, word(depth))
 	case "call-created":
 		if len(g.created) == 0 {
 			tx = types.NewTransaction(nonce, storeAddr, big.NewInt(0), gas, price, g.storeData())
@@ -229,7 +254,14 @@ func (g *txgen) make(from int, nonce uint64, number *big.Int, protectedOK bool) 
 	if protectedOK && g.cfg.IsEIP155(number) && r.Intn(4) != 0 {
 		signer = types.NewEIP155Signer(g.cfg.ChainId)
 	}
-	stx, err := types.SignTx(tx, signer, keys[from])
+	var stx *types.Transaction
+	var err error
+	if _, eip := signer.(types.EIP155Signer); !eip && !g.cfg.IsHomestead(number) && r.Intn(2) == 0 {
+		stx, err = signHighS(tx, keys[from]) // valid before Homestead only
+		g.highS++
+	} else {
+		stx, err = types.SignTx(tx, signer, keys[from])
+	}
 	if err != nil {
 		panic(err)
 	}
@@ -258,12 +290,14 @@ func newEngine() consensus.Engine { return aquahash.NewFaker() }
 
 func buildChain(c *vh.Ctx, spec cfgSpec, n int) *chainT {
 	r := c.Rng
-	ch := &chainT{spec: spec, gspec: genesisSpec(spec.cfg), gendb: aquadb.NewMemDatabase()}
-	ch.genesis = ch.gspec.MustCommit(ch.gendb)
+	ch := &chainT{spec: spec, gspec: genesisSpec(spec.cfg)}
+	gn := newNode(c, ch, &core.CacheConfig{Disabled: true}) // holds the main chain only
+	defer func() { gn.bc.Stop() }()
+	ch.genesis = gn.bc.Genesis()
 	g := &txgen{r: r, cfg: spec.cfg}
 	parent := ch.genesis
 	usedUncle := map[int]bool{}
-	fill := func(b *core.BlockGen, maxTx int, kinds *[]string) {
+	fill := func(b *blockGen, maxTx int, kinds *[]string) {
 		ntx := 0
 		switch x := r.Intn(10); {
 		case x == 0:
@@ -289,24 +323,23 @@ func buildChain(c *vh.Ctx, spec cfgSpec, n int) *chainT {
 	}
 	for i := 0; i < n; i++ {
 		// a sibling first (it can serve as an uncle of later blocks and as a competing block)
-		sib, _ := core.GenerateChain(context.Background(), spec.cfg, parent, newEngine(), ch.gendb, 1, func(_ int, b *core.BlockGen) {
+		sib, _ := assemble(gn, parent, func(b *blockGen) {
 			b.SetCoinbase(minerB)
 			b.SetExtra([]byte{'s', byte(i)})
+			b.OffsetTime(int64(1 + r.Intn(5)))
 			if r.Intn(3) == 0 {
 				fill(b, 2, nil)
 			}
 		})
-		ch.side = append(ch.side, sib[0])
+		ch.side = append(ch.side, sib)
 		var kinds []string
-		blk, rec := core.GenerateChain(context.Background(), spec.cfg, parent, newEngine(), ch.gendb, 1, func(_ int, b *core.BlockGen) {
+		blk, rec := extend(gn, parent, func(b *blockGen) {
 			if r.Intn(4) == 0 {
 				b.SetCoinbase(addrs[3]) // a miner that also sends transactions
 			} else {
 				b.SetCoinbase(minerA)
 			}
 			fill(b, 6, &kinds)
-			num := b.Number()
-			_ = num
 			if i >= 2 && r.Intn(2) == 0 { // one uncle is allowed before and after hard fork 5
 				// an uncle: the sibling of an ancestor 2..6 generations back
 				j := i - 1 - r.Intn(min(i-1, 5))
@@ -317,30 +350,40 @@ func buildChain(c *vh.Ctx, spec cfgSpec, n int) *chainT {
 				}
 			}
 		})
-		ch.blocks = append(ch.blocks, blk[0])
-		ch.receipts = append(ch.receipts, rec[0])
+		ch.blocks = append(ch.blocks, blk)
+		ch.receipts = append(ch.receipts, rec)
 		ch.kinds = append(ch.kinds, kinds)
-		parent = blk[0]
+		parent = blk
 	}
-	// a competing fork, shorter than what remains of the main chain
+	// a competing fork, shorter than what remains of the main chain (built on its own node)
 	ch.forkAt = 1 + r.Intn(n-3)
 	flen := min(3, n-ch.forkAt-1)
 	fparent := ch.blocks[ch.forkAt-1]
+	fn := newNode(c, ch, &core.CacheConfig{Disabled: true})
+	defer func() { fn.bc.Stop() }()
+	if err := fn.insert(ch.blocks[:ch.forkAt]); err != nil {
+		panic(fmt.Sprintf("fork builder node: %v", err))
+	}
 	gf := &txgen{r: r, cfg: spec.cfg}
-	ch.fork, _ = core.GenerateChain(context.Background(), spec.cfg, fparent, newEngine(), ch.gendb, flen, func(_ int, b *core.BlockGen) {
-		b.SetCoinbase(minerB)
-		b.SetExtra([]byte("fork"))
-		nonces := map[int]uint64{}
-		for j := 0; j < 1+r.Intn(3); j++ {
-			from := r.Intn(4)
-			if _, ok := nonces[from]; !ok {
-				nonces[from] = b.TxNonce(addrs[from])
+	for k := 0; k < flen; k++ {
+		fb, _ := extend(fn, fparent, func(b *blockGen) {
+			b.SetCoinbase(minerB)
+			b.SetExtra([]byte("fork"))
+			b.OffsetTime(int64(1 + r.Intn(7)))
+			nonces := map[int]uint64{}
+			for j := 0; j < 1+r.Intn(3); j++ {
+				from := r.Intn(4)
+				if _, ok := nonces[from]; !ok {
+					nonces[from] = b.TxNonce(addrs[from])
+				}
+				tx, _ := gf.make(from, nonces[from], b.Number(), true)
+				nonces[from]++
+				b.AddTx(tx)
 			}
-			tx, _ := gf.make(from, nonces[from], b.Number(), true)
-			nonces[from]++
-			b.AddTx(tx)
-		}
-	})
+		})
+		ch.fork = append(ch.fork, fb)
+		fparent = fb
+	}
 	return ch
 }
 
@@ -498,6 +541,21 @@ func (n *node) insert(blocks []*types.Block) (err error) {
 		cp[i] = nb
 	}
 	pan, pv := vh.CatchPanic(func() { _, err = n.bc.InsertChain(cp) })
+	if pan {
+		return fmt.Errorf("panic: %v", pv)
+	}
+	return err
+}
+
+// insertSame imports the very block objects it is given (their cached hashes, sizes and the
+// sender caches of their transactions travel with them)
+func (n *node) insertSame(blocks []*types.Block) (err error) {
+	for _, b := range blocks {
+		if b.Version() == 0 {
+			b.SetVersion(n.cfg.GetBlockVersion(b.Number()))
+		}
+	}
+	pan, pv := vh.CatchPanic(func() { _, err = n.bc.InsertChain(blocks) })
 	if pan {
 		return fmt.Errorf("panic: %v", pv)
 	}
